@@ -296,6 +296,8 @@ class CG(nn.Module):
                 'The number of dimensions of A and b must be the same or one more than b'
         if x is None:
             x = torch.zeros_like(b)
+        else:
+            x = x.clone()
         bnrm2 = torch.linalg.norm(b, dim=0)
         if (bnrm2 == 0).all():
             return b
